@@ -60,10 +60,14 @@ Fixpoint anyb {X : Type} (f : X -> bool) (l : list X) : bool :=
 Definition try_assign (A B : qset) (a : list (N * N)) : bool :=
   if nodupb N.eqb (map snd a) then qseteqb (map (rn_quad (alookup a)) A) B else false.
 
-(* decision procedure for [iso] (sound and complete, Proofs.v) *)
+(* decision procedure for [iso] (sound and complete, Proofs.v).  Isomorphic
+   datasets have the same number of blank nodes: the search (at most n! injective
+   assignments) is entered only then, whatever an implementation returned. *)
 Definition isob (A B : qset) : bool :=
   if qseteqb A B then true
-  else anyb (try_assign A B) (assigns (bnodes A) (bnodes B)).
+  else if Nat.eqb (length (bnodes A)) (length (bnodes B))
+       then anyb (try_assign A B) (assigns (bnodes A) (bnodes B))
+       else false.
 
 (* ------------------------------------------------------------------ *)
 (* Datasets                                                            *)
@@ -189,11 +193,13 @@ Definition fresh_id (base k : N) : N := 2 * (base + k) + 1.
 Definition penv := (list (N * N) * N)%type.   (* label dictionary, number of names minted *)
 
 (* one identifier of the document -> node.
-   relabel = true : nquads (W3CNTriplesParser.nodeid, _bnode_ids) and trig
-                    (SinkParser.anonymousNode, _anonymousNodes): get-or-create in
+   relabel = true : nquads (W3CNTriplesParser.nodeid, _bnode_ids), trig
+                    (SinkParser.anonymousNode, _anonymousNodes) and trix
+                    (TriXHandler.get_bnode, self.bnode): get-or-create in
                     ONE dictionary per document, shared by term positions and
                     graph names;
-   relabel = false: hext, trix, json-ld, patch: BNode(label), label kept. *)
+   relabel = false: hext, json-ld, patch: BNode(label), label kept.
+   TriX (TriXHandler.get_bnode) is relabel = true since commit 3d9dc36a. *)
 Definition res (relabel : bool) (base : N) (e : penv) (x : N) : penv * N :=
   if relabel && isb x then
     match afind (fst e) x with
@@ -232,9 +238,11 @@ Definition doc_ids (d : doc) : list N :=
                      ++ flat_map (fun t => [fst (fst t); snd (fst t); snd t]) (snd b)) d.
 
 (* parse into an EMPTY dataset *)
+Definition parse_with (relabel : bool) (base : N) (d : doc) : qset :=
+  p_out (fold_left (step_block relabel base) d {| p_env := ([], 0%N); p_out := [] |}).
+
 Definition parse_doc (relabel : bool) (d : doc) : qset :=
-  p_out (fold_left (step_block relabel (N.succ (list_max (doc_ids d)))) d
-                   {| p_env := ([], 0%N); p_out := [] |}).
+  parse_with relabel (N.succ (list_max (doc_ids d))) d.
 
 (* ------------------------------------------------------------------ *)
 (* RDF Patch                                                           *)
@@ -291,7 +299,7 @@ Definition roundtrip (f : fmt) (D : dset) : qset :=
   | Nquads => parse_doc true (ser_nquads D)
   | Hext => parse_doc false (ser_hext D)
   | Trig => parse_doc true (ser_trig D)
-  | Trix => parse_doc false (ser_trix D)
+  | Trix => parse_doc true (ser_trix D)
   | Jsonld => parse_doc false (ser_jsonld D)
   | PatchAdd => apply_patch (patch_rows true D) []
   | PatchDiff => []
